@@ -274,7 +274,7 @@ def run_harness(h, budget_s=20.0, seed=0, native_tries=300):
     if pend and h.native_call is not None and h.sample is not None:
         rng = random.Random(seed)
         nprng = np.random.default_rng(seed)
-        for _ in range(native_tries):
+        for _ in range(getattr(h, "native_tries", None) or native_tries):
             if not pend: break
             try:
                 inp = h.sample(h, nprng)
